@@ -23,7 +23,8 @@ use shred::{
     CastFrom, Fetch, FetchMut, MetaIter, MetaIterMut, MetaTable, Resource, ResourceId, World,
 };
 
-pub const MAXT: usize = 8;
+/// model types 1..8: the hand-written universe; 9..=308: the const-generic family `R<N>`
+pub const MAXT: usize = 308;
 pub const MODV: u32 = 1009;
 
 pub trait Obj {
@@ -152,7 +153,79 @@ macro_rules! zstty {
 // good flavours: sizes 0 .. 200 bytes, alignments 1 .. 32 (types 2, 4, 8 are ZERO-SIZED)
 objty!(G1, 1, (), (), true);
 zstty!(G2, 2, true);
-objty!(G3, 3, [u64; 4], (), true);
+/// Type 3 (good flavour): the resource type is EXACTLY `Box<dyn Resource>` -- a legal resource type of
+/// its own.  Its "object" is the box (the fat pointer stored in the world cell); the value lives in
+/// the `BoxInner` it points to, at a different address.
+pub type G3 = Box<dyn Resource>;
+pub struct BoxInner {
+    pub pad: [u64; 3],
+    pub v: u32,
+}
+impl Obj for Box<dyn Resource> {
+    fn tag(&self) -> u32 {
+        3
+    }
+    fn addr(&self) -> usize {
+        self as *const Self as usize
+    }
+    fn val(&self) -> u32 {
+        let inner: &dyn Resource = &**self;
+        inner.downcast_ref::<BoxInner>().map(|i| i.v).unwrap_or(0)
+    }
+    fn bump(&mut self) -> u32 {
+        let inner: &mut dyn Resource = &mut **self;
+        match inner.downcast_mut::<BoxInner>() {
+            Some(i) => {
+                i.v = (3 * i.v + 3) % MODV;
+                i.v
+            }
+            None => 0,
+        }
+    }
+}
+impl Mk for Box<dyn Resource> {
+    fn mk(v: u32) -> Self {
+        Box::new(BoxInner { pad: [0; 3], v })
+    }
+}
+unsafe impl CastFrom<Box<dyn Resource>> for dyn Obj {
+    fn cast(t: *mut Box<dyn Resource>) -> *mut Self {
+        t
+    }
+}
+
+/// A family of 300 more implementing types (model types 9..=308), for tables with more entries
+/// than any small integer type can number.
+pub struct R<const N: usize> {
+    pub v: u32,
+    pub pad: u16,
+}
+impl<const N: usize> Obj for R<N> {
+    fn tag(&self) -> u32 {
+        N as u32
+    }
+    fn addr(&self) -> usize {
+        self as *const Self as usize
+    }
+    fn val(&self) -> u32 {
+        self.v
+    }
+    fn bump(&mut self) -> u32 {
+        self.v = (3 * self.v + N as u32) % MODV;
+        self.v
+    }
+}
+impl<const N: usize> Mk for R<N> {
+    fn mk(v: u32) -> Self {
+        R { v, pad: N as u16 }
+    }
+}
+unsafe impl<const N: usize> CastFrom<R<N>> for dyn Obj {
+    fn cast(t: *mut R<N>) -> *mut Self {
+        t
+    }
+}
+
 zstty!(G4, 4, true, repr(align(8)));
 objty!(G5, 5, A16, u64, true);
 objty!(G6, 6, [u64; 12], [u64; 12], true);
@@ -167,6 +240,21 @@ objty!(B5, 5, [u64; 6], [u64; 6], false);
 objty!(B6, 6, [u64; 10], [u64; 4], false);
 objty!(B7, 7, [u64; 6], [u64; 7], false);
 zstty!(B8, 8, false, repr(align(16)));
+
+/// `f::<R<n>> args` for n in 9..=308 (the argument list is passed as one token tree)
+macro_rules! many_arms {
+    ($n:expr, $f:ident, $args:tt) => {
+        many_list!($n, $f, $args; 9 10 11 12 13 14 15 16 17 18 19 20 21 22 23 24 25 26 27 28 29 30 31 32 33 34 35 36 37 38 39 40 41 42 43 44 45 46 47 48 49 50 51 52 53 54 55 56 57 58 59 60 61 62 63 64 65 66 67 68 69 70 71 72 73 74 75 76 77 78 79 80 81 82 83 84 85 86 87 88 89 90 91 92 93 94 95 96 97 98 99 100 101 102 103 104 105 106 107 108 109 110 111 112 113 114 115 116 117 118 119 120 121 122 123 124 125 126 127 128 129 130 131 132 133 134 135 136 137 138 139 140 141 142 143 144 145 146 147 148 149 150 151 152 153 154 155 156 157 158 159 160 161 162 163 164 165 166 167 168 169 170 171 172 173 174 175 176 177 178 179 180 181 182 183 184 185 186 187 188 189 190 191 192 193 194 195 196 197 198 199 200 201 202 203 204 205 206 207 208 209 210 211 212 213 214 215 216 217 218 219 220 221 222 223 224 225 226 227 228 229 230 231 232 233 234 235 236 237 238 239 240 241 242 243 244 245 246 247 248 249 250 251 252 253 254 255 256 257 258 259 260 261 262 263 264 265 266 267 268 269 270 271 272 273 274 275 276 277 278 279 280 281 282 283 284 285 286 287 288 289 290 291 292 293 294 295 296 297 298 299 300 301 302 303 304 305 306 307 308)
+    };
+}
+macro_rules! many_list {
+    ($n:expr, $f:ident, $args:tt; $($k:literal)*) => {
+        match $n {
+            $( $k => $f::<R<$k>> $args, )*
+            _ => panic!("HARNESS: no such type"),
+        }
+    };
+}
 
 /// `by_type!(t, bad, f(args))` calls `f::<X>(args)` for the Rust type of model type `t`.
 macro_rules! by_type {
@@ -188,6 +276,7 @@ macro_rules! by_type {
             (6, true) => $f::<B6>($($a),*),
             (7, true) => $f::<B7>($($a),*),
             (8, true) => $f::<B8>($($a),*),
+            (n, false) if n > 8 => many_arms!(n, $f, ($($a),*)),
             _ => panic!("HARNESS: no such type"),
         }
     };
@@ -327,6 +416,8 @@ pub struct Machine {
     pub bad: Vec<bool>, // index t (1-based; [0] unused)
     pub max_g: usize,
     pub max_i: usize,
+    /// probe the borrow table after every call (off for histories over hundreds of types)
+    pub probe_on: bool,
 }
 
 impl Drop for Machine {
@@ -363,6 +454,7 @@ impl Machine {
             bad,
             max_g,
             max_i,
+            probe_on: true,
         };
         let mut la = Vec::new();
         let mut lv = Vec::new();
@@ -435,6 +527,9 @@ impl Machine {
 
     /// Borrow table as probed on the real cells: index 2(t-1)+d.
     pub fn probe(&self) -> Vec<&'static str> {
+        if !self.probe_on {
+            return Vec::new();
+        }
         let mut out = Vec::with_capacity(2 * self.nt);
         for t in 1..=self.nt {
             for d in 0..2u64 {
